@@ -126,6 +126,8 @@ def check_traversals(acc, c, net, labs, starts_mode, base, only=None, scrambled=
     probs = refmodel.wellformed(c)
     if probs:
         acc.violation('top_sort/invalid', case0, probs[:3])
+        if net.topo() is None:
+            return  # cyclic or dangling netlist: the traversal oracle below assumes a DAG
     topo_pos = None
     for mode in ('dfs', 'bfs'):
         for inverse in (False, True):
@@ -220,7 +222,7 @@ def check_traversals(acc, c, net, labs, starts_mode, base, only=None, scrambled=
                     acc.outcome('trace', (mode, inverse, len(reach), len(un), tsu))
 
 
-HIST_STARTS = ('S1', 'S2', 'S4', 'S6', 'S7')
+HIST_STARTS = ('S1', 'S2', 'S4', 'S6', 'S7', 'S8', 'S9')
 
 
 def check_deep(acc, pattern, L, storage):
